@@ -34,6 +34,12 @@ def run(pid, scratch, tier):
         lines.append("UNDECIDED property=%s native bounded check timed out" % pid)
         return 2, {"native_bounded": {"status": "timeout"}}, lines
     tests = re.findall(r"^test (\S+) \.\.\. (\w+)", out, re.M)
+    # a failing scenario can abort the test process (panic while unwinding): every expected test that did not
+    # report `ok` counts as failed
+    expected = re.findall(r"#\[test\]\s*fn (\w+)", src)
+    seen = {n for n, _ in tests}
+    if "running" in out and re.search(r"running \d+ tests?", out):
+        tests += [(n, "CRASHED") for n in expected if n not in seen]
     ev = {"native_bounded": {"kind": "bounded (native, concrete): " + bound, "cmd": " ".join(cmd), "tests": [{"name": n, "result": r} for n, r in tests],
                              "wall_s": round(time.time() - t0, 1), "counted_as_proved": False}}
     if not tests:
